@@ -274,6 +274,20 @@ structure PyTx where
   witnesses : List PyWit
 deriving Repr, Inhabited
 
+/-- a `Block` object: the constructor's parameters in order -/
+structure PyBlock where
+  magic : Bytes
+  block_size : Int
+  header : PyHeader
+  transaction_count : Int
+  transactions : List PyTx
+deriving Repr, Inhabited
+
+/-- did a call end in the translator's "outside the subset" stub?  (an `except Exception` never swallows that) -/
+def isUnsupported {α : Type} : Except PyErr α → Bool
+  | .error .unsupported => true
+  | _ => false
+
 /-- the `size` bytes that `struct.unpack_from(fmt, buf, offset)` reads: a negative offset counts from the end (and must not reach before
 the start); fewer than `size` bytes left is `struct.error` -/
 def bufAt (buf : Bytes) (offset : Int) (size : Nat) : Except PyErr Bytes :=
